@@ -450,3 +450,35 @@ def c16_r7(ctx):
                     v = c.args[0].id
                     ok = ("T", v) in facts or ("F", "(None is %s)" % v) in facts
                     ctx.ob(wr, ok, "self.qclass(%s) is built only for a sub-query that exists" % v, loc=ctx.nodeloc(wr, c))
+
+
+@rule("C16", "R8", "K4", "the two bounds of a parsed range are analysed by the same code, each independently of the other",
+      min_instances=1,
+      clause="In RangeNode.query the start text and the end text each go through get_single_text(field, <bound>, "
+             "tokenize=False, removestops=False) under a test on that bound alone: neither call is conditional on the other "
+             "bound (an `elif` would leave the end of a two-sided range un-analysed, e.g. not lower-cased).")
+def c16_r8(ctx):
+    prog = ctx.prog
+    f = prog.method("qparser.syntax.RangeNode", "query", inherited=False)
+    ctx.saw(f)
+    fa = guards.Facts(f)
+    sites = {}
+    for n in fa.g.nodes:
+        a = n.ast
+        if n.kind == "stmt" and isinstance(a, ast.Assign) and isinstance(a.value, ast.Call) and norm.call_name(a.value) == "get_single_text" \
+                and len(a.value.args) >= 2 and isinstance(a.value.args[1], ast.Name) and isinstance(a.targets[0], ast.Name) \
+                and a.targets[0].id == a.value.args[1].id:
+            kw = sorted("%s=%s" % (k.arg, norm.canon(k.value)) for k in a.value.keywords)
+            sites[a.targets[0].id] = (sorted(fa.at(n) or []), kw, norm.canon(a.value.args[0]))
+    names = sorted(sites)
+    ok = len(names) == 2
+    detail = str(sites)
+    if ok:
+        x, y = names
+        fx, kx, fldx = sites[x]
+        fy, ky, fldy = sites[y]
+        # same call shape, and each guarded by its own bound only
+        ok = kx == ky and fldx == fldy and \
+            not any(re.search(r"\b%s\b" % re.escape(y), t) for (_, t) in fx) and not any(re.search(r"\b%s\b" % re.escape(x), t) for (_, t) in fy) and \
+            ("T", x) in fx and ("T", y) in fy
+    ctx.ob(f, ok, "start and end are each analysed under a test on that bound alone, with the same arguments", detail=detail)
